@@ -136,6 +136,12 @@ def dstep (st : DState) : DEv → DState × List Obs
       [.sendRet st.txNext])
   | .drain => ({ st with txQueue := [] }, (txRun st.mtu st.txQueue).map .tx)
 
+/-- `is_transfer_idle()`: nothing received waits to be popped and nothing waits in the send queue.
+    (In the code `_tx_queue` is emptied when the idle callback hands a transfer to the pacing queue,
+    a little before its `finished` signal; the model's `drain` is atomic, so the two agree whenever
+    no callback is pending.) -/
+def isTransferIdle (st : DState) : Bool := st.rx.queue.isEmpty && st.txQueue.isEmpty
+
 /-- state and everything observed, oldest first -/
 def drun (st : DState) : List DEv → DState × List Obs
   | [] => (st, [])
